@@ -22,6 +22,8 @@ def replay(pid, path):
         return 1
     plan = P.ALL[pid]
     cfg = d.get("cfg", "dev")
+    if d.get("extra_caps"):
+        os.environ["VERIF_EXTRA_CAPS"] = ",".join(map(str, d["extra_caps"]))
     ok, driver = E.build_driver()
     ok2, harness = E.build_harness(cfg)
     if not (ok and ok2):
